@@ -9,13 +9,18 @@ const os = require('os')
 
 const REPO = process.env.VERIF_REPO || '/repo'
 const table = new Map()
+const byFile = new Map()
+const tableSet = table.set.bind(table)
+table.set = (k, v) => { byFile.set(k.split('\0')[0], v); return tableSet(k, v) }
 let lastConfig = null
 class ShimRewriter {
   constructor (config) { this.config = config; lastConfig = config }
   rewrite (code, file) {
     const k = file + '\0' + code
-    if (!table.has(k)) throw new Error('verif shim: no native result for ' + file)
-    const r = table.get(k)
+    // the package may hand the native rewriter something else than the caller's text: answer with the
+    // result registered for that file (the oracle then sees what the package makes of it)
+    const r = table.has(k) ? table.get(k) : byFile.get(file)
+    if (!r) throw new Error('verif shim: no native result for ' + file)
     if (r.err !== undefined) throw new Error(r.err)
     return JSON.parse(JSON.stringify(r.ok))
   }
@@ -95,9 +100,18 @@ function expectFor (step, line) {
   const span = (step.spans && step.spans[String(line)]) || [line, line]
   if (step.origMap) {
     const f = (l) => step.origMap.lineOf[String(l)]
-    return { path: path.join(path.dirname(step.file), step.origMap.source), lo: f(span[0]), hi: f(span[1]) }
+    // a multi-line statement may straddle two sources of the bundle: any line of the statement is acceptable
+    const so = step.origMap.sourceOf || {}
+    const alts = []
+    for (let l = span[0]; l <= span[1]; l++) alts.push({ path: path.join(path.dirname(step.file), so[String(l)] || step.origMap.source), line: f(l) })
+    return { path: alts[0].path, lo: f(span[0]), hi: f(span[1]), alts }
   }
   return { path: step.file, lo: span[0], hi: span[1] }
+}
+
+function accept (want, file, line) {
+  if (want.alts) return want.alts.some(a => a.path === file && (a.line === line || (line >= want.lo && line <= want.hi && want.alts.every(b => b.path === a.path))))
+  return file === want.path && line >= want.lo && line <= want.hi
 }
 
 async function run (req) {
@@ -145,7 +159,7 @@ async function run (req) {
           if (e.file === step.file) {
             const want = expectFor(cur.step, e.line)
             notes.framesChecked++
-            if (g.file !== want.path || !(g.line >= want.lo && g.line <= want.hi)) {
+            if (!accept(want, g.file, g.line)) {
               problems.push({ step: i, kind: wrongKind(cur), mode: 'user', site: step.site, frame: k, fn: e.fn, expected: want, got: { file: g.file, line: g.line }, rawRewritten: g.raw })
               break
             }
@@ -161,7 +175,7 @@ async function run (req) {
           const e = E[k]; const g = S[k]
           if (e.file === step.file) {
             const want = expectFor(cur.step, e.line)
-            if (g.file !== want.path || !(g.line >= want.lo && g.line <= want.hi)) {
+            if (!accept(want, g.file, g.line)) {
               problems.push({ step: i, kind: wrongKind(cur), mode: 'string', site: step.site, frame: k, fn: e.fn, expected: want, got: { file: g.file, line: g.line, text: g.text } })
               break
             }
@@ -170,7 +184,7 @@ async function run (req) {
             const m = /\((.*):(\d+):(\d+)\)/.exec(e.evalOrigin || '')
             if (m && m[1] === step.file) {
               const want = expectFor(cur.step, +m[2])
-              if (g.evalAt.file !== want.path || !(g.evalAt.line >= want.lo && g.evalAt.line <= want.hi)) {
+              if (!accept(want, g.evalAt.file, g.evalAt.line)) {
                 problems.push({ step: i, kind: 'wrong-location', mode: 'string-eval', site: step.site, frame: k, expected: want, got: g.evalAt, text: g.text })
                 break
               }
